@@ -71,7 +71,10 @@ namespace detail
 			if(Value == 0)
 				return -1;
 
-			return glm::bitCount(~Value & (Value - static_cast<genIUType>(1)));
+			// on the unsigned representation: Value - 1 overflows for the most negative signed value
+			typedef typename detail::make_unsigned<genIUType>::type U;
+			U const Unsigned = static_cast<U>(Value);
+			return glm::bitCount(static_cast<U>(~Unsigned & (Unsigned - static_cast<U>(1))));
 		}
 	};
 
